@@ -28,7 +28,7 @@ def configs(tier, seed):
         for modes in itertools.product(MODES, repeat=n):
             cfgs.append({"modes": list(modes), "order": list(range(n))})
     # shuffled insertion order with repeats, larger maps
-    for n in (4, 5, 6, 9) if tier == "quick" else (5, 6, 7, 8, 9, 12, 17, 33):
+    for n in (4, 5, 6, 9, 17, 33) if tier == "quick" else (5, 6, 7, 8, 9, 12, 17, 33, 65):
         for _ in range(3 if tier == "quick" else 8):
             modes = [rng.choice(MODES) for _ in range(n)]
             order = list(range(n)); rng.shuffle(order)
